@@ -119,7 +119,7 @@ func mslUnmodelledTypeName(name string) bool {
 		}
 	}
 	for _, p := range []string{"texture", "depth", "imageblock", "acceleration_structure", "instance_acceleration_structure",
-		"primitive_acceleration_structure", "intersection_", "visible_function_table", "command_buffer", "render_", "compute_", "mesh", "simdgroup_"} {
+		"primitive_acceleration_structure", "intersection_", "visible_function_table", "command_buffer", "render_", "compute_", "mesh", "simdgroup_float", "simdgroup_half", "simdgroup_bfloat", "simdgroup_matrix"} {
 		if strings.HasPrefix(name, p) {
 			return true
 		}
